@@ -314,7 +314,26 @@ def coqchk_summary(prop):
 # oracles (real libraries, consulted by the extracted model on demand)
 # ----------------------------------------------------------------------------------
 
+ORACLE_PREMISE_BREACHES = []   # answers of the real libraries that contradict a premise of a theorem (clean_oracles)
+
+
 def oracle_answer(name, arg):
+    ans = _oracle_answer(name, arg)
+    # premises of C01_programs_userinfo (Proofs/NetlocReach.v: clean_oracles): the address compressor and the IDNA
+    # encoders never write '@', str.lower() keeps '@' as it is
+    try:
+        if name == "ip_parse" and ans is not None and "@" in ans[1]:
+            ORACLE_PREMISE_BREACHES.append((name, arg, ans))
+        elif name in ("idna2008_enc", "idna2003_enc") and ans is not None and "@" in ans:
+            ORACLE_PREMISE_BREACHES.append((name, arg, ans))
+        elif name == "lower" and ("@" in ans) != ("@" in arg):
+            ORACLE_PREMISE_BREACHES.append((name, arg, ans))
+    except TypeError:
+        pass
+    return ans
+
+
+def _oracle_answer(name, arg):
     import ipaddress
     import unicodedata
     if name == "ip_parse":
@@ -636,7 +655,9 @@ def finish(ctx, obligations, trusted_base, level_note_assumptions, rule):
             "backends": ["py"] + (["c"] if ctx.c_ok else []),
             "build": {k: ctx.report.get(k) for k in
                       ("make_rc", "driver_rc", "build_s", "tables_differ_from_pinned", "tables_error", "model_gen_errors", "forbidden", "coqchk")},
-            "notes": ctx.notes,
+            "notes": ctx.notes + ([f"oracle premise (clean_oracles) contradicted by the real library: {ORACLE_PREMISE_BREACHES[:3]}"]
+                                  if ORACLE_PREMISE_BREACHES else []),
+            "oracle_premise_breaches": len(ORACLE_PREMISE_BREACHES),
         },
         "assumptions": level_note_assumptions,
         "wall_s": round(time.time() - ctx.t0, 2),
